@@ -356,6 +356,26 @@ func relayAgentOpts6(rng *rand.Rand) []pkt.Opt6 {
 		port := []uint16{0, 547, 1067, 40547, uint16(1024 + rng.Intn(60000))}[rng.Intn(5)]
 		o = append(o, pkt.O6(135, []byte{byte(port >> 8), byte(port)}))
 	}
+	if rng.Intn(5) == 0 {
+		// Relay-Supplied Options (66, RFC 6422): options the relay would like the client to be given - also
+		// ones no relay has any business supplying (another server's identifier, a client identifier, DNS)
+		var in []pkt.Opt6
+		for i := rng.Intn(3); i >= 0; i-- {
+			switch rng.Intn(5) {
+			case 0:
+				in = append(in, pkt.O6(pkt.OptServerID6, pkt.DUIDLL([]byte{2, 0, 0, 0, 0, 0x99})))
+			case 1:
+				in = append(in, pkt.O6(pkt.OptClientID6, randDUID(rng)))
+			case 2:
+				in = append(in, pkt.O6(23, net.ParseIP("2001:db8:66::53").To16()))
+			case 3:
+				in = append(in, pkt.O6(92, []byte("erp.example.org"))) // the one RFC 6422's registry began with
+			default:
+				in = append(in, pkt.O6(uint16(rng.Intn(200)), []byte{1, 2, 3}))
+			}
+		}
+		o = append(o, pkt.O6(66, pkt.Opts6Bytes(in)))
+	}
 	rng.Shuffle(len(o), func(i, j int) { o[i], o[j] = o[j], o[i] })
 	return o
 }
